@@ -18,6 +18,9 @@ pub const STRUCT_NAMES: &[&str] = &[
 pub const MEMBER_NAMES: &[&str] = &[
     "a", "b", "from", "to", "value", "bytes", "name", "A", "B", "data", "x1", "_y", "uint256", "Zed", "id", "next",
     "items", "kids",
+    // member names are arbitrary strings: not NFC, compatibility characters, an invisible joiner (struct names stay
+    // ASCII because EIP-712 sorts them and does not say by which collation)
+    "e\u{301}", "\u{212b}", "\u{1100}\u{1161}", "caf\u{e9}", "\u{ff4e}ame", "na\u{200d}me", "\u{3a9}", "\u{2126}",
 ];
 const STRINGS: &[&str] = &[
     "",
@@ -383,10 +386,11 @@ pub fn spell_int(neg: bool, mag: &Big, u: &mut U) -> J {
 }
 
 pub fn render_address(a: &[u8; 20], u: &mut U) -> J {
-    if u.bool() {
-        J::Str(hex0x(a))
-    } else {
-        J::Str(eip55(a))
+    // lower case, EIP-55, or all upper case (EIP-55: all-lower and all-upper spellings carry no checksum)
+    match u.below(4) {
+        0 | 1 => J::Str(hex0x(a)),
+        2 => J::Str(eip55(a)),
+        _ => J::Str(format!("0x{}", hex0x(a)[2..].to_uppercase())),
     }
 }
 
